@@ -278,6 +278,9 @@ func slice(fr *frame, x, lo, hi, max value) value {
 	case string:
 		Len = len(x)
 		Cap = Len
+	case SymString:
+		Len = len(x.B)
+		Cap = Len
 	case []value:
 		Len = len(x)
 		Cap = cap(x)
@@ -307,6 +310,8 @@ func slice(fr *frame, x, lo, hi, max value) value {
 	switch x := x.(type) {
 	case string:
 		return x[l:h]
+	case SymString:
+		return mkString(x.B[l:h])
 	case []value:
 		return x[l:h:m]
 	case *value: // *array
@@ -410,6 +415,16 @@ func binop(fr *frame, op token.Token, t types.Type, x, y value) value {
 		return eqnil(fr, t, x, y)
 	case token.NEQ:
 		return condNot(fr, eqnil(fr, t, x, y))
+	}
+	_, xss := x.(SymString)
+	_, yss := y.(SymString)
+	if xss || yss {
+		if op == token.ADD {
+			xb, _ := strBytes(x)
+			yb, _ := strBytes(y)
+			return mkString(append(append([]value{}, xb...), yb...))
+		}
+		panic(engineError{"ordering comparison on symbolic string"})
 	}
 	if _, ok := x.(SymFloat); ok {
 		return fr.floatBinop(op, x, y)
@@ -753,6 +768,26 @@ func isNilRef(x value) bool {
 
 // equals returns x == y (bool or SymBool) according to Go's equivalence relation for type t.
 func equals(fr *frame, t types.Type, x, y value) value {
+	_, xss := x.(SymString)
+	_, yss := y.(SymString)
+	if xss || yss {
+		xb, ok1 := strBytes(x)
+		yb, ok2 := strBytes(y)
+		if !ok1 || !ok2 {
+			panic(engineError{fmt.Sprintf("string equality %T vs %T", x, y)})
+		}
+		if len(xb) != len(yb) {
+			return false
+		}
+		var r value = true
+		for i := range xb {
+			r = condAnd(fr, r, equals(fr, types.Typ[types.Uint8], xb[i], yb[i]))
+			if r == false {
+				return false
+			}
+		}
+		return r
+	}
 	if isSymScalar(x) || isSymScalar(y) {
 		c := fr.ctx()
 		switch xx := x.(type) {
@@ -959,6 +994,9 @@ func callBuiltin(caller *frame, fn *ssa.Builtin, args []value) value {
 			}
 			return arg0
 		}
+		if s, ok := args[1].(SymString); ok {
+			return append(args[0].([]value), s.B...)
+		}
 		src := args[1].([]value)
 		dst := args[0].([]value)
 		for _, e := range src {
@@ -1028,6 +1066,8 @@ func callBuiltin(caller *frame, fn *ssa.Builtin, args []value) value {
 		switch x := args[0].(type) {
 		case string:
 			return len(x)
+		case SymString:
+			return len(x.B)
 		case array:
 			return len(x)
 		case *value:
@@ -1171,16 +1211,7 @@ func conv(fr *frame, t_dst, t_src types.Type, x value) value {
 		}
 		switch ut_src.Elem().Underlying().(*types.Basic).Kind() {
 		case types.Byte:
-			xs := x.([]value)
-			b := make([]byte, 0, len(xs))
-			for i := range xs {
-				e := xs[i]
-				if _, ok := e.(SymInt); ok {
-					e = fr.concretize(e, "bytes->string")
-				}
-				b = append(b, e.(byte))
-			}
-			return string(b)
+			return mkString(x.([]value))
 		case types.Rune:
 			xs := x.([]value)
 			r := make([]rune, 0, len(xs))
@@ -1229,6 +1260,19 @@ func conv(fr *frame, t_dst, t_src types.Type, x value) value {
 			return sx
 		}
 
+		if ss, ok := x.(SymString); ok {
+			switch ut_dst := ut_dst.(type) {
+			case *types.Slice:
+				if ut_dst.Elem().Underlying().(*types.Basic).Kind() == types.Byte {
+					return append([]value{}, ss.B...)
+				}
+			case *types.Basic:
+				if ut_dst.Kind() == types.String {
+					return ss
+				}
+			}
+			panic(engineError{"unsupported conversion of symbolic string"})
+		}
 		// string -> []rune, []byte or string?
 		if s, ok := x.(string); ok {
 			switch ut_dst := ut_dst.(type) {
